@@ -13,6 +13,12 @@
           against the recursive named type node = dict{Next : optional node}; the harness runs it in a
           256 KiB-stack thread.  `bigchain` (n = 10^5) is too large for the list-based model memo: the model
           prints the closed form 2n+1 (lin) / 2n+3 (cyc) that the `chain` cases confirm for small n.
+  `achain n int|cyc|self` / `bigachain` : n alias names a1 = [a2], ..., one-option disjunctions of a name, ending in
+          Integer / back at a1 / in a self alias, checked from `n a1` on the integer 1 in the 256 KiB-stack thread
+          (call depth must not grow with the number of names followed); closed form n+1 / n+2 / n+1 (n >= 2).
+          Plain case lines with such alias definitions (Driver/C09Alias.lean): the verdict is also compared with
+          the declarative oracle `Spec.gfp` (greatest fixed point: an alias cycle is satisfied by every object)
+          inside the fragments F1/F2 and for completeness, as in Driver/C09Seq.lean.
   `seq ...` : a SEQUENCE of checks on one type-check context and one object context: format, model and judge are in
           Driver/C09Seq.lean ("returns the same verdict every time it is run": no dependence on earlier checks).
 -/
@@ -20,6 +26,7 @@ import Driver.Common
 import Driver.TypeCheckCodec
 import Driver.C08
 import Driver.C09Seq
+import Driver.C09Alias
 import Parsley.Spec.WorkBound
 namespace Driver.C09
 open Parsley Parsley.TC Driver Driver.TCCodec
@@ -54,11 +61,20 @@ def dchainCase (n : Nat) (shape : String) : Case :=
       ((i, 0), if i < n then mkArr [.ref (i + 1) 0] else Obj.int 7)
     ⟨"c09", [("t", t), ("leaf", .prim Attr.dflt .name)], g, .named "t", .ref 1 0⟩
 
+/-- n alias names a1 = [a2], ..., a(n-1) = [an]; an = [z] with z = Integer (int) | [a1] (cyc) | [an] (self) -/
+def achainCase (n : Nat) (k : String) : Case :=
+  let link (t : String) : Chk := .disj Attr.dflt (mkAlts [.named t])
+  let defs : Ctx := (List.range n).map fun j =>
+    let i := j + 1
+    (s!"a{i}", link (if i < n then s!"a{i + 1}" else if k == "cyc" then "a1" else if k == "self" then s!"a{n}" else "z"))
+  ⟨"c09", defs ++ [("z", .prim Attr.dflt .integer)], [], .named "a1", .int 1⟩
+
 /-- closed forms of the model's output for the 10^5-link cases (the list-based memo of the model is
     quadratic); each is confirmed by the `chain` / `dchain` cases for small n, which the model runs, and
     by the correspondence with the real counter on the big case itself -/
 def closedForm (kind : String) (n : Nat) (k : String) : String :=
-  if kind == "bigchain" then s!"accept steps={2 * n + (if k == "cyc" then 3 else 1)} rerun=same"
+  if kind == "bigachain" then s!"accept steps={n + (if k == "cyc" || n == 1 then 2 else 1)} rerun=same"
+  else if kind == "bigchain" then s!"accept steps={2 * n + (if k == "cyc" then 3 else 1)} rerun=same"
   else if k == "dict" then s!"reject typemismatch steps={2 * n + 2} rerun=same"
   else if k == "arr" then s!"reject typemismatch steps={2 * n + 1} rerun=same"
   else s!"reject typemismatch steps={4 * n - 1} rerun=same"
@@ -69,6 +85,8 @@ def parse (line : String) : Option (Case × Option String) :=
   | ["bigchain", n, k] => some (chainCase n.toNat! (k == "cyc"), some (closedForm "bigchain" n.toNat! k))
   | ["dchain", n, k] => some (dchainCase n.toNat! k, none)
   | ["bigdchain", n, k] => some (dchainCase n.toNat! k, some (closedForm "bigdchain" n.toNat! k))
+  | ["achain", n, k] => some (achainCase n.toNat! k, none)
+  | ["bigachain", n, k] => some (achainCase n.toNat! k, some (closedForm "bigachain" n.toNat! k))
   | _ => (parseCase line).map fun c => (c, none)
 
 def model (line : String) : String :=
@@ -101,7 +119,18 @@ def judge (line impl : String) : String :=
     | none => "bad no-step-count"
     | some s =>
       let b := bound c
-      if s ≤ b then "ok" else s!"bad work-bound steps={s} bound={b}"
+      if s > b then s!"bad work-bound steps={s} bound={b}" else
+      -- alias family: the verdict against the declarative oracle, where a theorem of C08 says they agree
+      -- (the table oracle is cubic in the number of names: contexts of at most 8 definitions)
+      if big.isNone && c.ctx.length ≤ 8 && c.ctx.any (fun e => C09Alias.isAliasDef e.2) then
+        let want := if Spec.gfp c.g c.ctx c.obj c.chk then "accept" else "reject"
+        if v == want then "ok"
+        else if Frag.inF1 c.ctx c.chk then s!"bad alias-verdict theorem=F1 oracle={want} impl={v}"
+        else if Frag.inF2 c.ctx c.chk then s!"bad alias-verdict theorem=F2 oracle={want} impl={v}"
+        else if want == "accept" && Frag.wfSpec c.ctx c.chk then
+          s!"bad alias-verdict theorem=completeness oracle={want} impl={v}"
+        else "ok"
+      else "ok"
 
 /-- graphs with back edges: a random graph over ids 1..4 where every object may refer to every id -/
 def gen (seed n : Nat) (tier : String) (emit : String → IO Unit) : IO Unit := do
@@ -116,6 +145,12 @@ def gen (seed n : Nat) (tier : String) (emit : String → IO Unit) : IO Unit := 
     emit s!"bigdchain 100000 {k}"
   if tier == "thorough" then
     emit "chain 1500 lin"; emit "chain 1500 cyc"
+  -- alias chains and alias cycles (names and one-option disjunctions only), small stack
+  for k in ["int", "cyc", "self"] do
+    for m in [1, 2, 3, 10, 50, 400] do
+      emit s!"achain {m} {k}"
+    emit s!"bigachain 1000 {k}"
+    emit s!"bigachain 10000 {k}"
   genSmall "c09" false emit
   -- lasso chains of references: ids 1..t lead into a cycle t+1 -> ... -> t+c -> t+1 of objects whose
   -- values are references; entered at the top, through an array element and through a dictionary entry
@@ -137,6 +172,8 @@ def gen (seed n : Nat) (tier : String) (emit : String → IO Unit) : IO Unit := 
     let (l, r') := genCycDisj "c09" r
     r := r'
     emit l
+  -- alias cycles / chains reached through every position of a Named check (Driver/C09Alias.lean)
+  C09Alias.gen seed n tier emit
   -- sequences of 2..4 checks on ONE type-check context and one object context (Driver/C09Seq.lean)
   C09Seq.gen seed n tier emit
 
